@@ -25,7 +25,7 @@ STRATS = (
 )
 MAXIRR = [25, 5, 0]
 MAXSEASON = [10000, 60, 0]
-APPEFF = [100, 70, 40]
+APPEFF = [100, 70, 40, 72.5]   # fractional percentages are valid inputs
 
 
 def irr_spec(method, kw, sch, maxirr, maxseason, eff, wetsurf=100):
@@ -103,7 +103,7 @@ def describe(tier):
     return {
         "rule": "the complete irrigation sub-product: 21 strategy settings (method 0; 1 x 5 threshold vectors (descending, ascending, constant) from WP / FC / 40 % / 70 % of TAW; 2 x 3 intervals; 3 x 6 schedules incl. "
                 "empty / dates outside seasons / dates before the simulation start and after its end / every day / depth above the daily maximum; 4 x 3 targets; 5 x 3 depths) x MaxIrr {25,5,0} x "
-                "MaxIrrSeason {10000,60,0} x AppEff {100,70,40} x initial water {WP,FC} x words x 2 seasons with pre-season days"
+                "MaxIrrSeason {10000,60,0} x AppEff {100,70,40,72.5} x initial water {WP,FC} x words x 2 seasons with pre-season days"
                 + ("" if tier == "quick" else "; plus off-season/partial-wetting variants and Maize/Wheat at full length")
                 + "; the per-strategy contract is evaluated on every transition, the threshold/interval decision and amount are re-computed from the "
                 "inputs and outputs of the real irrigation() call captured by a pass-through wrapper and cross-checked against the IrrDay column.",
